@@ -31,6 +31,14 @@ type UChord struct {
 type Dict struct {
 	AttrFiles  [][]UAttr  `json:"attr_files"`
 	ChordFiles [][]UChord `json:"chord_files"`
+	RevNames   bool       `json:"rev_names,omitempty"` // the files are named so that the order on the command line is the reverse of the alphabetical order of their paths
+}
+
+func (d Dict) fileName(kind string, i int) string {
+	if d.RevNames {
+		return fmt.Sprintf("%c-%s.yml", 'z'-byte(i%26), kind)
+	}
+	return fmt.Sprintf("%s%d.yml", kind, i)
 }
 
 func attrYAML(as []UAttr) string {
@@ -86,12 +94,12 @@ func (d Dict) filesAndArgs() (map[string]string, []string) {
 	var args []string
 	var an, cn []string
 	for i, f := range d.AttrFiles {
-		n := fmt.Sprintf("attr%d.yml", i)
+		n := d.fileName("attr", i)
 		files[n] = attrYAML(f)
 		an = append(an, "@"+n)
 	}
 	for i, f := range d.ChordFiles {
-		n := fmt.Sprintf("chord%d.yml", i)
+		n := d.fileName("chord", i)
 		files[n] = chordYAML(f)
 		cn = append(cn, "@"+n)
 	}
@@ -175,6 +183,7 @@ type C16Case struct {
 	Dict    *Dict    `json:"dict,omitempty"`
 	Use     string   `json:"use,omitempty"`     // chord symbol the piece plays
 	Seq     []string `json:"seq,omitempty"`     // user: several chords in one piece (resolution must not depend on what was played before)
+	AsText  bool     `json:"as_text,omitempty"` // user: the piece is written as chord text (`1_sym[1] ...`) and converted first
 	Bad     string   `json:"bad,omitempty"`     // kind of inconsistency
 	Command string   `json:"command,omitempty"` // for bad: which resolving command
 }
@@ -312,11 +321,26 @@ func checkC16(c C16Case) *Violation {
 		for _, u := range seq {
 			doc.WriteString(oneChordDoc(u))
 		}
-		res := Run{Argv: append([]string{"write"}, args...), Stdin: doc.String(), Files: files}.Exec()
+		piece := doc.String()
+		if c.AsText {
+			var tx strings.Builder
+			for _, u := range seq {
+				tx.WriteString("1_" + u + "[1] ")
+			}
+			conv := crd(tx.String(), "text", "conv", "degree")
+			if v := cleanOutcome(conv); v != nil {
+				return v
+			}
+			if conv.Exit != 0 {
+				return vio("user-text-refused", "text conv degree refuses %q: %s", tx.String(), firstLines(conv.Stderr, 2))
+			}
+			piece = string(conv.Stdout)
+		}
+		res := Run{Argv: append([]string{"write"}, args...), Stdin: piece, Files: files}.Exec()
 		if v := cleanOutcome(res); v != nil {
 			return v
 		}
-		ctx := fmt.Sprintf("\nargs %v\npiece plays %q\n%s", args, seq, dumpFiles(files))
+		ctx := fmt.Sprintf("\nargs %v\npiece plays %q (as chord text: %v)\n%s", args, seq, c.AsText, dumpFiles(files))
 		if res.Exit != 0 {
 			return vio("user-chord-refused", "a consistent user dictionary is refused when playing %q: %s%s", seq, firstLines(res.Stderr, 2), ctx)
 		}
@@ -535,6 +559,9 @@ func genDict(t *rapid.T) (Dict, []string) {
 			c = UChord{Name: theory.LongNames[disp], Display: disp}
 		} else {
 			c = UChord{Name: fmt.Sprintf("User%s%d", rapid.StringMatching(`[A-Za-z]{1,6}`).Draw(t, "cname"), i), Display: fmt.Sprintf("u%d%s", i, rapid.StringMatching(`[a-z+]{0,3}`).Draw(t, "cdisp"))}
+			if coin(t, "display-with-unicode-accidental", 15) {
+				c.Display += rapid.SampledFrom([]string{"♭9", "♯9", "♯5", "♭5", "é", "Δ"}).Draw(t, "cdisp-uni")
+			}
 			if coin(t, "name-is-display", 15) {
 				c.Name = c.Display
 			}
@@ -573,6 +600,18 @@ func genDict(t *rapid.T) (Dict, []string) {
 		}
 		usable = append(usable, c.Name, c.Display)
 	}
+	// a later definition of a user chord replaces the earlier one (same name, same display, other tones)
+	if len(chords) > 0 && coin(t, "user-chord-redefined-later", 25) {
+		k := rapid.IntRange(0, len(chords)-1).Draw(t, "redefined")
+		if strings.HasPrefix(chords[k].Name, "User") || strings.HasPrefix(chords[k].Name, "u") {
+			nc := UChord{Name: chords[k].Name, Display: chords[k].Display, Attrs: pickAttrs()}
+			if len(nc.Attrs) == 0 {
+				nc.Attrs = []string{"Perfect1", "Perfect4"}
+			}
+			chords = append(chords, nc)
+		}
+	}
+	d.RevNames = coin(t, "file-names-in-reverse-alphabetical-order", 40)
 	// split over files
 	split := func(n int) []int {
 		if n == 0 {
@@ -681,7 +720,7 @@ func TestC16(t *testing.T) {
 				seq = append(seq, rapid.SampledFrom(pool).Draw(t, "next"))
 			}
 		}
-		c := C16Case{Kind: "user", Dict: &d, Use: use, Seq: seq}
+		c := C16Case{Kind: "user", Dict: &d, Use: use, Seq: seq, AsText: coin(t, "piece-as-chord-text", 30)}
 		inherited := false
 		for _, f := range d.ChordFiles {
 			for _, ch := range f {
